@@ -1076,7 +1076,7 @@ class Mesh:
         if indices is None:
             return None, None
         indexing = np.hstack(tuple([t[ix] for ix in indices]))
-        sorted_indexing = np.sort(indexing, axis=0)
+        sorted_indexing = Mesh._sort_entities(indexing)
 
         sorted_indexing, ixa, ixb = np.unique(sorted_indexing,
                                               axis=1,
@@ -1088,6 +1088,28 @@ class Mesh:
             return np.ascontiguousarray(sorted_indexing), mapping
 
         return np.ascontiguousarray(indexing[:, ixa]), mapping
+
+    @staticmethod
+    def _sort_entities(indexing):
+        """Sort the vertices of each entity, i.e. each column.
+
+        The triangular facets of wedges are padded to four vertices by
+        repeating one of the vertices.  Always repeat the smallest one so
+        that the result does not depend on the order in which an element
+        lists the vertices.
+
+        """
+        out = np.sort(indexing, axis=0)
+        repeated = out[1:] == out[:-1]
+        cols = np.nonzero(repeated.any(axis=0))[0]
+        if len(cols) > 0:
+            # drop the repeated vertex and prepend the smallest one
+            rows = np.arange(out.shape[0])[:, None]
+            last = repeated[:, cols].argmax(axis=0) + 1
+            out[:, cols] = out[np.where(rows <= last,
+                                        np.maximum(rows - 1, 0),
+                                        rows), cols]
+        return out
 
     @staticmethod
     def build_inverse(t, mapping):
@@ -1251,8 +1273,9 @@ class Mesh:
         newp = np.zeros(self.doflocs.shape[1], dtype=np.int64)
         newp[self.t] = t
         candidates = m.t2f[:, self.f2t[0]]
-        match = (np.sort(m.facets[:, candidates], axis=0)
-                 == np.sort(newp[self.facets], axis=0)[:, None]).all(axis=0)
+        match = (self._sort_entities(m.facets)[:, candidates]
+                 == self._sort_entities(newp[self.facets])[:, None]
+                 ).all(axis=0)
         newf = candidates[match.argmax(axis=0), np.arange(self.nfacets)]
 
         boundaries = {}
